@@ -11,6 +11,7 @@ import (
 	"net"
 	"strconv"
 	"sync"
+	"sync/atomic"
 	"time"
 
 	simplefixgo "github.com/b2broker/simplefix-go"
@@ -77,31 +78,35 @@ type Config struct {
 	Hb           int    // heartbeat interval (initiator: configured; acceptor: whatever the peer's Logon says)
 	Buf          int    // channel buffer size
 	CloseTimeout time.Duration
-	ZeroClose    bool // CloseTimeout really is zero (otherwise zero means the default of 5 s)
+	ZeroClose    bool                   // CloseTimeout really is zero (otherwise zero means the default of 5 s)
 	Counter      session.CounterStorage // optional instrumented stores
 	Messages     session.MessageStorage
 	WriteTimeout time.Duration
 }
 
 type Live struct {
-	Cfg     Config
-	Sess    *session.Session
-	H       *simplefixgo.DefaultHandler
-	Peer    net.Conn
-	Served  chan error // the serving call returned
-	Acc     *simplefixgo.Acceptor
-	Ini     *simplefixgo.Initiator
-	Store   *memory.Storage
-	mu      sync.Mutex
-	Log     []Msg
-	In      chan Msg
-	EOF     chan struct{} // the peer end saw end of stream
-	Events  chan string
-	peerSeq int
-	ready   chan struct{}
-	pause   chan struct{} // closed = the peer has stopped reading
-	pauseMu sync.Mutex
+	Cfg       Config
+	Sess      *session.Session
+	H         *simplefixgo.DefaultHandler
+	Peer      net.Conn
+	Served    chan error // the serving call returned
+	Acc       *simplefixgo.Acceptor
+	Ini       *simplefixgo.Initiator
+	Store     *memory.Storage
+	mu        sync.Mutex
+	Log       []Msg
+	In        chan Msg
+	EOF       chan struct{} // the peer end saw end of stream
+	Events    chan string
+	peerSeq   int
+	ready     chan struct{}
+	pause     chan struct{} // closed = the peer has stopped reading
+	pauseMu   sync.Mutex
+	readDelay int64 // nanoseconds the peer waits before each read (atomic)
 }
+
+// SlowReads makes the scripted peer wait d before every read.
+func (l *Live) SlowReads(d time.Duration) { atomic.StoreInt64(&l.readDelay, int64(d)) }
 
 // StopReading makes the scripted peer stop reading from the connection (the session's writes then
 // hit their deadline).
@@ -169,7 +174,7 @@ func Start(cfg Config) (*Live, error) {
 		}
 		l.Sess = s
 		l.hook()
-		go l.readPeer() // Run sends the Logon at once: somebody must be reading
+		go l.readPeer()                           // Run sends the Logon at once: somebody must be reading
 		go func() { l.Served <- l.Ini.Serve() }() // and the writer loop must be draining (buffer size 0)
 		if err := s.Run(); err != nil {
 			return nil, err
@@ -223,6 +228,9 @@ func (l *Live) readPeer() {
 		case <-l.pause:
 			return // the peer does not read any more; EOF is reported so that waiters do not hang
 		default:
+		}
+		if d := atomic.LoadInt64(&l.readDelay); d > 0 {
+			time.Sleep(time.Duration(d)) // a slow reader: the session's outbound buffer backs up
 		}
 		n, err := l.Peer.Read(buf)
 		now := time.Now()
